@@ -249,15 +249,14 @@ Qed.
 Definition centre_coord (ac : bool) (n j : Z) : Q :=
   if ac then -1 + 2 * inject_Z j / (inject_Z n - 1) else (2 * inject_Z j + 1) / inject_Z n - 1.
 
-Lemma unnormalize_centre ac n j : (if ac then 2 <= n else 1 <= n)%Z -> unnormalize ac n (centre_coord ac n j) == inject_Z j.
+Lemma unnormalize_centre (ac : bool) n j : ((if ac then 2 else 1) <= n)%Z -> unnormalize ac n (centre_coord ac n j) == inject_Z j.
 Proof.
-  intros Hn. destruct ac; unfold unnormalize, centre_coord.
+  intros Hn. destruct ac; cbn iota in Hn; unfold unnormalize, centre_coord.
   - assert (Hn' : ~ inject_Z n - 1 == 0).
-    { intros E. assert (inject_Z n == inject_Z 1) by (change (inject_Z 1) with 1; lra).
-      apply inject_Z_injective in H. lia. }
+    { intros E. rewrite <- inject_Z_sub1 in E. unfold Qeq in E. cbn in E. lia. }
     field. exact Hn'.
   - assert (Hn' : ~ inject_Z n == 0).
-    { intros E. change 0 with (inject_Z 0) in E. apply inject_Z_injective in E. lia. }
+    { intros E. unfold Qeq in E. cbn in E. lia. }
     field. exact Hn'.
 Qed.
 
@@ -265,19 +264,19 @@ Qed.
 Lemma unnormalize_single x : unnormalize true 1 x == inject_Z 0.
 Proof. unfold unnormalize. change (inject_Z 1) with 1. change (inject_Z 0) with 0. ring. Qed.
 
-Theorem identity_grid2 m p ac H W im i j : (if ac then 2 <= H /\ 2 <= W else 1 <= H /\ 1 <= W)%Z ->
+Theorem identity_grid2 m p (ac : bool) H W im i j : ((if ac then 2 else 1) <= H)%Z -> ((if ac then 2 else 1) <= W)%Z ->
   (0 <= i < H)%Z -> (0 <= j < W)%Z ->
   grid_sample2 m p ac H W im (centre_coord ac W j) (centre_coord ac H i) == im i j.
 Proof.
-  intros Hn Hi Hj. apply grid_sample2_on_pixel; try assumption; apply unnormalize_centre; destruct ac; lia.
+  intros HnH HnW Hi Hj. apply grid_sample2_on_pixel; try assumption; apply unnormalize_centre; assumption.
 Qed.
 
-Theorem identity_grid3 m p ac D H W im k i j :
-  (if ac then 2 <= D /\ 2 <= H /\ 2 <= W else 1 <= D /\ 1 <= H /\ 1 <= W)%Z ->
+Theorem identity_grid3 m p (ac : bool) D H W im k i j :
+  ((if ac then 2 else 1) <= D)%Z -> ((if ac then 2 else 1) <= H)%Z -> ((if ac then 2 else 1) <= W)%Z ->
   (0 <= k < D)%Z -> (0 <= i < H)%Z -> (0 <= j < W)%Z ->
   grid_sample3 m p ac D H W im (centre_coord ac W j) (centre_coord ac H i) (centre_coord ac D k) == im k i j.
 Proof.
-  intros Hn Hk Hi Hj. apply grid_sample3_on_pixel; try assumption; apply unnormalize_centre; destruct ac; lia.
+  intros HnD HnH HnW Hk Hi Hj. apply grid_sample3_on_pixel; try assumption; apply unnormalize_centre; assumption.
 Qed.
 
 (* size-1 axes with align_corners=True: any grid value returns the only pixel *)
